@@ -442,3 +442,111 @@ fn c06_o3b_cached_nodes_usable() {
     std::mem::forget(r);
     std::mem::forget(core);
 }
+
+impl Core {
+    /// put a finished lookup's closest responding nodes into the cache (what
+    /// `cache_iterative_query` stores), without touching the statistics
+    pub(crate) fn kani_cache(&mut self, target: Id, nodes: Vec<Node>) {
+        self.cached_iterative_queries.put(
+            target,
+            CachedIterativeQuery {
+                closest_responding_nodes: nodes.into_boxed_slice(),
+                dht_size_estimate: 1.0,
+                responders_dht_size_estimate: 1.0,
+                subnets: 1,
+                request_type: RequestTypeSpecific::FindNode(FindNodeRequestArguments { target }),
+            },
+        );
+    }
+}
+
+fn lookup_of(kind: u8, target: Id, with_responder: bool) -> IterativeQuery {
+    let req = match kind {
+        0 => GetRequestSpecific::FindNode(FindNodeRequestArguments { target }),
+        1 => GetRequestSpecific::GetPeers(GetPeersRequestArguments { info_hash: target }),
+        2 => GetRequestSpecific::GetSignedPeers(GetPeersRequestArguments { info_hash: target }),
+        _ => GetRequestSpecific::GetValue(GetValueRequestArguments { target, seq: None, salt: None }),
+    };
+    let mut q = IterativeQuery::new(Id::from(ME), target, req);
+    let mut id = [0u8; 20];
+    id[0] = 0x33;
+    q.add_candidate(Node::new(Id::from(id), SocketAddrV4::new([10, 0, 3, 1].into(), 6881)));
+    if with_responder && kind != 0 {
+        q.add_responding_node(Node::new_with_token(Id::from(id), SocketAddrV4::new([10, 0, 3, 1].into(), 6881), Box::new([1, 2, 3, 4])));
+    }
+    q
+}
+
+/// expected (main.dht_count, main.responders_count, signed.dht_count, signed.responders_count)
+fn expected_counts(kinds: &[Option<u8>; 2]) -> (usize, usize, usize, usize) {
+    let (mut a, mut b, mut c, mut d) = (0, 0, 0, 0);
+    let mut i = 0;
+    while i < 2 {
+        if let Some(k) = kinds[i] {
+            if k == 2 {
+                c += 1;
+                d += 1;
+            } else {
+                a += 1;
+                if k != 0 {
+                    b += 1;
+                }
+            }
+        }
+        i += 1;
+    }
+    (a, b, c, d)
+}
+
+//@ ob: C20.O1
+//@ tier: quick
+//@ cap: 2700
+//@ mem: 20
+//@ standins: tracing lru vcoll
+//@ desc: statistics pairing: after caching one finished lookup and then a second one (same target = replacement, or a different target), the per-table sample counters (dht size estimates count, responders samples count, subnets sum) equal the aggregate over the lookups currently cached -- find_node lookups count only towards the basic estimate, get_signed_peers lookups only towards the signed-peers table -- and no counter underflows
+//@ bounds: two cache steps; lookup kinds symbolic among find_node / get_peers / get_signed_peers / get (4 x 4); second target same or different; each lookup has one concrete candidate and zero or one responder (so the f64 estimates are constants); cache capacity stand-in 4; unwind 26
+//@ outside: f64 sums are not compared bit for bit (float addition is not associative); rolling the 1000-entry cache (replacement of an existing key exercises the same decrement path)
+//@ stubs: Instant::now; getrandom::fill
+//@ functions: Core::{cache_iterative_query, decrement_cached_iterative_query_stats}, RoutingTable::{increment_responders_stats, increment_dht_size_estimate, decrement_*}, ClosestNodes::{dht_size_estimate, subnets_count}
+#[kani::proof]
+#[kani::stub(std::time::Instant::now, clock::now)]
+#[kani::stub(getrandom::fill, rnd::fill)]
+#[kani::unwind(26)]
+fn c20_o1_stats_pairing() {
+    clock::set(0);
+    let mut core = new_core(false, vec![]);
+    let k1: u8 = kani::any();
+    let k2: u8 = kani::any();
+    kani::assume(k1 < 4 && k2 < 4);
+    let same: bool = kani::any();
+    let r1: bool = kani::any();
+    let r2: bool = kani::any();
+    let (ta, tb) = (Id::from(T5), if same { Id::from(T5) } else { Id::from(T6) });
+    let q1 = lookup_of(k1, ta, r1);
+    core.cache_iterative_query(&q1, &[]);
+    let (m, s) = (core.routing_table.kani_stats(), core.signed_peers_routing_table.kani_stats());
+    let e = expected_counts(&[Some(k1), None]);
+    assert!(m.0 == e.0 && m.1 == e.1 && s.0 == e.2 && s.1 == e.3, "C20.O1 statistics equal the aggregate over cached lookups (after first lookup)");
+    let q2 = lookup_of(k2, tb, r2);
+    core.cache_iterative_query(&q2, &[]);
+    let (m, s) = (core.routing_table.kani_stats(), core.signed_peers_routing_table.kani_stats());
+    let e = expected_counts(&[if same { None } else { Some(k1) }, Some(k2)]);
+    assert!(m.0 == e.0 && m.1 == e.1 && s.0 == e.2 && s.1 == e.3, "C20.O1 statistics equal the aggregate over cached lookups (after second lookup)");
+    // subnets: every responders sample contributes subnets_count() of its responders (1 node -> 1, none -> 20)
+    let sub = |k: u8, r: bool| -> usize { if k == 0 { 0 } else if r { 1 } else { 20 } };
+    let mut em = 0usize;
+    let mut es = 0usize;
+    if !same {
+        if k1 == 2 { es += sub(k1, r1) } else { em += sub(k1, r1) }
+    }
+    if k2 == 2 { es += sub(k2, r2) } else { em += sub(k2, r2) }
+    assert!(m.2 == em && s.2 == es, "C20.O1 subnets sum equals the aggregate over cached lookups");
+    assert!(core.cached_iterative_queries.len() == if same { 1 } else { 2 }, "C20.O2 cache holds one entry per target");
+    assert!(!cut_reached(), "CUT: random bytes exhausted");
+    kani::cover!(same && k1 == 0 && k2 == 3);
+    kani::cover!(!same && k1 == 2 && k2 == 0);
+    kani::cover!(same && k1 == 3 && k2 == 0);
+    std::mem::forget(q1);
+    std::mem::forget(q2);
+    std::mem::forget(core);
+}
